@@ -154,5 +154,5 @@ func (fr *Frame) child(fn *ssa.Function) *Frame {
 	return &Frame{loopHead: map[int]*State{}, loopOf: map[*ssa.BasicBlock][]*loopMod{}, fnModMaps: fr.fnModMaps, fnModInner: fr.fnModInner, ctx: fr.ctx, fn: fn,
 		vals: map[ssa.Value]Val{}, tuples: map[ssa.Value][]Val{}, addrs: map[ssa.Value]Addr{}, depth: fr.depth + 1, locals: map[string][]*ssa.Alloc{},
 		fname: fr.fname, entry: fr.entry, ptrParams: fr.ptrParams, refParams: fr.refParams, iters: map[ssa.Value]iterInfo{}, iterKeys: map[int]string{},
-		specdefs: fr.specdefs, writeSet: fr.writeSet, writeAll: fr.writeAll, elemWrite: fr.elemWrite, ghost: fr.ghost, curLoops: fr.curLoops}
+		specdefs: fr.specdefs, inCommute: fr.inCommute, writeSet: fr.writeSet, writeAll: fr.writeAll, elemWrite: fr.elemWrite, ghost: fr.ghost, curLoops: fr.curLoops}
 }
